@@ -164,6 +164,11 @@ fn u(s: &str) -> Option<u32> {
 
 impl State for St {
     fn step(&mut self, ws: &[&str]) -> String {
+        // a trailing `@tag` (history hash) is not part of the operation
+        let ws = match ws.last() {
+            Some(w) if w.starts_with('@') => &ws[..ws.len() - 1],
+            _ => ws,
+        };
         match ws {
             ["open"] => {
                 self.txn = None;
@@ -539,10 +544,30 @@ fn gen_tx(rng: &mut Rng, sim: &mut Sim, mode: Mode, out: &mut dyn Write, wild: b
     commit
 }
 
-fn generate(rng: &mut Rng, n: usize, tier: &str, out: &mut dyn Write, mode: Mode) {
+/// read lines get a tag = hash of the case's history so far (ignored by both sides): identical
+/// histories give identical op lines, so "distinct non-trivial cases" counts distinct histories
+pub fn tag_reads(case_text: &str, out: &mut dyn Write) {
+    let mut h: u64 = 0xcbf29ce484222325;
+    for line in case_text.lines() {
+        for b in line.bytes().chain(std::iter::once(b'\n')) {
+            h ^= b as u64;
+            h = h.wrapping_mul(0x100000001b3);
+        }
+        let w = line.split_whitespace().next().unwrap_or("");
+        if w == "dump" || w == "extq" || w == "vsearch" || w == "q" {
+            writeln!(out, "{} @{:016x}", line, h).unwrap();
+        } else {
+            writeln!(out, "{}", line).unwrap();
+        }
+    }
+}
+
+fn generate(rng: &mut Rng, n: usize, tier: &str, sink: &mut dyn Write, mode: Mode) {
     let max_tx = if tier == "thorough" { 12 } else { 6 };
     for case in 0..n {
-        writeln!(out, "#case {}", case).unwrap();
+        writeln!(sink, "#case {}", case).unwrap();
+        let mut buf: Vec<u8> = Vec::new();
+        let out: &mut dyn Write = &mut buf;
         writeln!(out, "open").unwrap();
         let mut sim = Sim { nodes: 0, used_ext: BTreeSet::new(), dead: BTreeSet::new(), edges: Vec::new() };
         // one case in eight is "wild": dangling ids, reused external ids, edges to dead nodes
@@ -592,5 +617,6 @@ fn generate(rng: &mut Rng, n: usize, tier: &str, out: &mut dyn Write, mode: Mode
                 Mode::Spec => {}
             }
         }
+        tag_reads(std::str::from_utf8(&buf).unwrap(), sink);
     }
 }
